@@ -58,6 +58,7 @@ def run(ctx, rep, tier):
     rep.rule("CS", "the capacity a region adds to the bins depends on that region alone (no scan state carried from one region to the next)", 1)
     rep.rule("FC", "row / region bounds are never offset in floating point and truncated back (expected count 0; control in selftest/c16_controls.cpp)", 1)
     rep.rule("IX", "bin indices are not derived from coordinate / size divisions", 1)
+    check_axis_symmetry(ctx, rep)
     check_levels(ctx, rep)
     check_index_origin(ctx, rep)
     check_carried_scan(ctx, rep)
@@ -674,3 +675,35 @@ def check_bin_limits(ctx, rep):
             rep.holds("BL", prods[0], f, "the interpolation product %s is formed in %s" % (pretty(canon(prods[0]))[:40], (prods[0].get("type") or {}).get("qualType")))
         else:
             rep.unknown("BL", f.decl, f, "interpolation", "no product found (shape changed)")
+
+
+# ---- SX: the functions that lay out the bins treat the two axes alike ------------------------------
+SYMMETRIC = ("DensityGrid::updateBinsToNumber", "DensityGrid::updateBinsToSize", "DensityGrid::updateBinCenters", "DensityGrid::updateBinCapacity",
+             "DensityGrid::binCapacity", "DensityGrid::computePlacementArea", "DensityGrid::DensityGrid", "HierarchicalDensityPlacement::setupHierarchy")
+
+
+def check_axis_symmetry(ctx, rep):
+    """Each of these functions handles x and y in one body; the bins tile the placement area and carry its free area only if what is
+    done for the x limits / x extents is also done for y. Decided on the multiset of members, callees, operators and literals of the
+    body (local variable names do not count): it must be its own image under X<->Y, width<->height."""
+    from .c06 import swap_axis, name_bag
+    rep.rule("SX", "bin layout functions (limits, centres, capacities, hierarchy) are their own image under X<->Y", 3)
+    n = 0
+    for q in SYMMETRIC:
+        for f in ctx.prog.func(CQ + q, required=False) or []:
+            if f.body is None:
+                continue
+            b = name_bag(f)
+            if not any(swap_axis(k) != k for k in b):
+                continue
+            n += 1
+            sb = {swap_axis(k): v for k, v in b.items()}
+            if sb == b:
+                rep.holds("SX", f.decl, f, "%s/%d treats both axes alike" % (f.short, len(f.params)))
+            else:
+                diff = ["%s x%d but %s x%d" % (k, b.get(k, 0), swap_axis(k), b.get(swap_axis(k), 0)) for k in sorted(b) if b.get(k, 0) > b.get(swap_axis(k), 0)]
+                rep.violation("SX", f.decl, f, "%s/%d does not treat x and y alike" % (f.short, len(f.params)),
+                              "uses differ: %s; the bin limits / capacities of one axis are then computed by a different formula and the grid no longer "
+                              "tiles the placement area" % "; ".join(diff[:5]), key="%s/%d|axis asymmetry" % (f.short, len(f.params)))
+    if n == 0:
+        rep.unknown("SX", None, None, "bin layout functions", "none found (shape changed)")
